@@ -40,6 +40,16 @@ GEOM_NOTE = ("Trusted: Coq kernel; extraction + float64 shim; harness/driver tra
              "cos/sin of the angles are values supplied by libm (premises).")
 
 CLAIMS = {
+    "C02": dict(
+        engine="geom", design_ref="DESIGN.md section 4 C02",
+        technique="Coq proofs over the reals of the formula identities (partial: lens integral and score <= 1 not proved) + model/impl comparison of areas and scores + exact union-of-discs and shoelace oracles",
+        text="Theorems (reals): a defined score equals copies x shape area / cell area and the cell area is |A x B|; the polygon "
+             "area the code computes equals the shoelace area of the radial polygon (sine subtraction law); the molecule area is "
+             "the sum of disc areas minus the pairwise lens terms (zero for discs that do not reach each other).  Not proved: that "
+             "the lens term is the area of a two-disc intersection, and score <= 1; both are monitored on every generated shape "
+             "(exact arc-decomposition area of the union of discs; shoelace on emitted vertices; score in (0,1]).  Known finding D7: "
+             "three discs with a common region.",
+        note=GEOM_NOTE + "  acos, sqrt, sin and pi are libm values shared by model and implementation."),
     "C03": dict(
         engine="geom", design_ref="DESIGN.md section 4 C03",
         technique="Coq proof over the reals (sums over the loops, double-sum exchange) for the weighting; re-description invariance and cutoff coverage by monitor only (partial)",
@@ -180,4 +190,4 @@ CLAIMS = {
 
 _NOT_YET = "not claimed yet: the model/theorems/engine for this property are still being built (see DESIGN.md section 7)"
 NOT_APPLICABLE = {p: _NOT_YET for p in
-                  ["C02", "C08", "C09", "C10", "C11"]}
+                  ["C08", "C09", "C10", "C11"]}
